@@ -63,6 +63,9 @@ func firstLine(s string) string {
 	return ""
 }
 
+// satIsFinal: phases that expect models (reachability guards, must-fail canaries) take the first `sat`.
+var satIsFinal bool
+
 // Solve runs the script; definite = sat or unsat.
 func Solve(script string, dir string, name string, timeout time.Duration) SolveResult {
 	initSolvers()
@@ -84,7 +87,8 @@ func Solve(script string, dir string, name string, timeout time.Duration) SolveR
 		fcmd.Stderr = &fout
 		_ = fcmd.Run()
 		fcancel()
-		if fl := firstLine(fout.String()); fl == "unsat" || fl == "sat" {
+		quantifiedFast := !satIsFinal && !strings.HasSuffix(name, ".relaxed") && (strings.Contains(script, "(forall ") || strings.Contains(script, "(exists "))
+		if fl := firstLine(fout.String()); fl == "unsat" || (fl == "sat" && !quantifiedFast) {
 			return SolveResult{Status: fl, Solver: availableSolvers[0].name, Seconds: time.Since(fstart).Seconds(), Output: fout.String(), All: map[string]string{availableSolvers[0].name: fl}}
 		}
 	}
@@ -125,10 +129,21 @@ func Solve(script string, dir string, name string, timeout time.Duration) SolveR
 	}
 	res := SolveResult{Status: "unknown", All: map[string]string{}}
 	got := 0
+	// a model of a quantified query is the fragile answer (the solvers' model-based instantiation is incomplete):
+	// it is kept, but the other solvers may still refute it with `unsat` before the timeout
+	quantified := !satIsFinal && !strings.HasSuffix(name, ".relaxed") && (strings.Contains(script, "(forall ") || strings.Contains(script, "(exists "))
+	var satAns *ans
 	for got < len(availableSolvers) {
 		a := <-ch
 		got++
 		res.All[a.solver] = a.status
+		if a.status == "sat" && quantified && got < len(availableSolvers) {
+			if satAns == nil {
+				c := a
+				satAns = &c
+			}
+			continue
+		}
 		if a.status == "unsat" || a.status == "sat" {
 			res.Status = a.status
 			res.Solver = a.solver
@@ -140,6 +155,13 @@ func Solve(script string, dir string, name string, timeout time.Duration) SolveR
 		if res.Output == "" || a.status == "error" {
 			res.Output += a.solver + ": " + truncate(a.out, 600) + "\n"
 		}
+	}
+	if satAns != nil {
+		res.Status = "sat"
+		res.Solver = satAns.solver
+		res.Seconds = satAns.secs
+		res.Output = satAns.out
+		return res
 	}
 	res.Seconds = time.Since(start).Seconds()
 	allTimeout := true
